@@ -257,6 +257,17 @@ def case_fourindex(case):
             want = _orbit(idx)
             if got != want or not np.all(arr[arr != 0] == 1.25):
                 viols.append(_v("four-index", f"n={n} quadruple {idx} ({lname} layout): filled {sorted(got)} expected orbit {sorted(want)}"))
+        # the value assigned is whatever the caller says - also zero, onto a target that holds other numbers (NaN as a marker of
+        # missing entries, an element stored earlier and reset)
+        for fill, val in ((np.nan, 0.0), (7.5, -0.0), (7.5, 0.0)):
+            arr = np.full((n, n, n, n), fill)
+            set_four_index_element(arr, *idx, val)
+            count += 1
+            hit = {tuple(int(x) for x in t) for t in np.argwhere(arr == 0.0)}
+            rest_ok = bool(np.isnan(arr[arr != 0.0]).all()) if np.isnan(fill) else bool((arr[arr != 0.0] == fill).all())
+            if hit != _orbit(idx) or not rest_ok:
+                viols.append(_v("four-index", f"n={n} quadruple {idx}: value {val!r} assigned onto a target filled with {fill}: positions set "
+                                              f"{sorted(hit)} expected orbit {sorted(_orbit(idx))}"))
         if len(viols) > 5:
             break
     return viols, [f"fourindex:n={n}"], {"n": n, "quadruples": count}, count
